@@ -74,6 +74,26 @@ def var_unit(spec, by_state, iv):
         c.prove(gJ.shape == (N, N), "Jacobian of the augmented system is square of the augmented size")
         if gJ.shape == (N, N):
             c.prove(all_close(gJ, refJ, c), "supplied Jacobian == derivative of the augmented rhs (by_state=%s)" % by_state, watch=None)
+        if nP:
+            # the parameter values are state of the model object: change them and evaluate again at the SAME point
+            # (nothing computed for the old values may survive)
+            env2 = dict(env)
+            th2 = []
+            for p_ in spec.params:
+                env2[p_] = c.real("th2_" + p_)
+                th2.append(env2[p_])
+            bind(m, th2)
+            if iv:
+                got2 = m.ode_and_sensitivityIV(zarr, t)
+                gotJ2 = m.ode_and_sensitivityIV_jacobian(zarr, t)
+            else:
+                got2 = m.ode_and_sensitivity(zarr, t, by_state)
+                gotJ2 = m.ode_and_sensitivity_jacobian(zarr, t, by_state)
+            c.prove(all_close(got2, [expr.ev(e, env2) for e in rhs], c), "augmented rhs at the same point after the parameter values were changed == oracle at the new values")
+            gJ2 = np.asarray(gotJ2, dtype=object)
+            if gJ2.shape == (N, N):
+                refJ2 = [[expr.ev(expr.d(rhs[a], names[b]), env2) for b in range(N)] for a in range(N)]
+                c.prove(all_close(gJ2, refJ2, c), "supplied Jacobian at the same point after the parameter values were changed == oracle at the new values", watch=None)
     return Unit("C13.%s[%s,by_state=%s]" % ("IV" if iv else "sens", spec.name, by_state), h,
                 bounds={"states": nS, "params": nP, "augmented_size": nS + nS * nP + (nS * nS if iv else 0)}, program=spec.describe(), max_paths=20)
 
